@@ -60,6 +60,7 @@ type C03Case struct {
 	Sources []string            `json:"sources"`
 	Inc     map[string][]*TNode `json:"inc,omitempty"`
 	Steps   []C03Step           `json:"steps"`
+	HxGen   int                 `json:"hx_generation,omitempty"` // how often the filter hx has been registered again so far (state of the history)
 	FailAt  int                 `json:"fail_at_step"`
 	Prefix  *C02Prefix          `json:"process_history,omitempty"` // earlier cases of the shard process the divergence was seen in
 }
@@ -71,6 +72,9 @@ func genC03(r *Rng) *C03Case {
 	lo, hi := 0, 5
 	if r.Chance(0.15) {
 		lo, hi = 16, 24 // maps well beyond any small-size special case
+		if r.Chance(0.5) {
+			lo, hi = 33, 36 // ... and beyond 32 (there are 36 key words)
+		}
 	}
 	for i := 0; i < ne; i++ {
 		cs.Envs = append(cs.Envs, GenEnv(r.Fork(uint64(100+i)), lo, hi))
@@ -160,11 +164,15 @@ func genC03(r *Rng) *C03Case {
 				cs.Steps = append(cs.Steps, C03Step{Kind: "render", T: dumpT, B: st.B, EP: r.Intn(3)})
 			}
 		}
+		if r.Chance(0.04) {
+			// the filter hx is registered again (a sibling closure) between two renders
+			st = C03Step{Kind: "rereg", B: st.B}
+		}
 		cs.Steps = append(cs.Steps, st)
-		if st.Kind == "mutate" {
+		if st.Kind == "mutate" || st.Kind == "rereg" {
 			// ... and then renders again something it rendered with that environment before
 			for j := len(cs.Steps) - 2; j >= 0; j-- {
-				if p := cs.Steps[j]; p.B == st.B && (p.Kind == "render" || p.Kind == "parse") {
+				if p := cs.Steps[j]; (p.B == st.B || st.Kind == "rereg") && (p.Kind == "render" || p.Kind == "parse") {
 					cs.Steps = append(cs.Steps, p)
 					break
 				}
@@ -191,6 +199,9 @@ func (cs *C03Case) buildEnvs() []map[string]any {
 func c03Engine(cs *C03Case) (*liquid.Engine, Res) {
 	cs.Cfg.apply()
 	e := NewEngine(cs.Cfg)
+	if cs.HxGen > 0 {
+		registerHx(e, cs.HxGen)
+	}
 	names := make([]string, 0, len(cs.Inc))
 	for n := range cs.Inc {
 		names = append(names, n)
@@ -289,7 +300,7 @@ func c03Mutate(cs *C03Case, envs []map[string]any, st C03Step, si int) bool {
 		}
 	}
 	e := cs.Envs[st.B]
-	for _, name := range []string{"m", "m2"} {
+	for _, name := range []string{"big", "m", "m2"} {
 		v := e.get(name)
 		if v == nil || v.T != "map" || v.R != "" || len(v.A) == 0 {
 			continue
@@ -299,6 +310,25 @@ func c03Mutate(cs *C03Case, envs []map[string]any, st C03Step, si int) bool {
 			continue
 		}
 		i := st.K % len(v.A)
+		if st.K%3 == 0 && len(v.A) >= 3 {
+			// replace a KEY that is neither the smallest nor the largest by a new one (same
+			// size, same extremes, same value)
+			ks := append([]string{}, v.K...)
+			sortStrings(ks)
+			old := ks[1+st.K%(len(ks)-2)]
+			nk := old + "x"
+			if _, clash := live[nk]; !clash {
+				for j := range v.K {
+					if v.K[j] == old {
+						v.K[j] = nk
+					}
+				}
+				live[nk] = live[old]
+				delete(live, old)
+				lastMutated, lastMutatedLen = name, len(v.A)
+				return true
+			}
+		}
 		nv := fmt.Sprintf("mutated-by-caller-%d", si)
 		v.A[i] = &LV{T: "str", S: nv}
 		live[v.K[i]] = nv
@@ -377,6 +407,18 @@ func c03Find(c *Ctx, cs0 *C03Case, out *CaseOut, wantSig string) []c03Fail {
 	}
 	var retained []kept
 	for si, st := range cs.Steps {
+		if st.Kind == "rereg" {
+			if lastOK >= 0 && lastCase == nil {
+				lastCase, _ = json.Marshal(cs)
+			}
+			cs.HxGen++
+			registerHx(eng, cs.HxGen)
+			exp = map[[3]int]Res{} // every expectation was computed with the previous registration
+			if c != nil {
+				c.count("fault:filter_registered_again", 1)
+			}
+			continue
+		}
 		if st.Kind == "mutate" {
 			if lastOK >= 0 && lastCase == nil {
 				lastCase, _ = json.Marshal(cs) // environments as the last judged step saw them
